@@ -96,15 +96,21 @@ def verifyProof (hmac : Hmac) (cfg : Config) (token : Str) (now : Int) (cache : 
 
 /-! ### `proxy_proof_gate` -/
 
-/-- the `try:` body of `gate(req)`: `raw = req.get_header(PROOF_HEADER)` is `none` when the header is absent -/
-def gateVerify (hmac : Hmac) (cfg : Config) (raw : Option Str) (now : Int) (cache : Option NonceState) (mono : Int) :
-    Outcome × Option NonceState :=
+/-- the `try:` body of `gate(req)`: `raw = req.get_header(PROOF_HEADER)` is `none` when the header is absent.
+Parametric in how "absent" is tested (`if not raw` / `if raw is None`), which extraction reads from the source. -/
+def gateVerifyWith (absent : AbsentTest) (hmac : Hmac) (cfg : Config) (raw : Option Str) (now : Int)
+    (cache : Option NonceState) (mono : Int) : Outcome × Option NonceState :=
   match raw with
   | none => (.done (.err .noProof), cache)
   | some r =>
-    if Gen.C22.absentTest = .falsy ∧ r = [] then (.done (.err .noProof), cache)
+    if absent = .falsy ∧ r = [] then (.done (.err .noProof), cache)
     else if Gen.C22.commaGuard && r.contains ',' then (.done (.err .malformed), cache)
     else verifyProof hmac cfg r now cache mono
+
+/-- the gate of the tree under test -/
+def gateVerify (hmac : Hmac) (cfg : Config) (raw : Option Str) (now : Int) (cache : Option NonceState) (mono : Int) :
+    Outcome × Option NonceState :=
+  gateVerifyWith Gen.C22.absentTest hmac cfg raw now cache mono
 
 inductive Mode where
   | allow | require
@@ -157,5 +163,13 @@ def http401 (proxyHint : Str) (e : ProofError) : Resp401 :=
 def wsgiJoin (sep : Str) : List Str → Option Str
   | [] => none
   | vals => some (join sep vals)
+
+/-- a history of requests through one gate (the closure keeps one `NonceCache`) -/
+def runGate (hmac : Hmac) (cfg : Config) (sep : Str) : Option NonceState → List Req → List Outcome × Option NonceState
+  | st, [] => ([], st)
+  | st, r :: rs =>
+    let step := gateVerify hmac cfg (wsgiJoin sep r.vals) r.now st r.mono
+    let rest := runGate hmac cfg sep step.2 rs
+    (step.1 :: rest.1, rest.2)
 
 end VgiVerif.C22
